@@ -208,7 +208,9 @@ void Search::go()
     // check if there is only one move to make
     if (_root_moves.size() == 1)
     {
-        _search_time = 500;
+        // do not spend long on a forced move - but never more than the
+        // limits allow either
+        _search_time = std::min<Duration>(_search_time, 500);
     }
     iter_search();
 
